@@ -77,6 +77,8 @@ thread_local! {
     static STATE: RefCell<Option<Rc<RefCell<SystemState>>>> = const { RefCell::new(None) };
     /// probe calls in the current run (a shell that re-executes its input for ever is cut off)
     static PROBES: Cell<usize> = const { Cell::new(0) };
+    /// the final state of the last `run_feed` (see `final_state`)
+    static FINAL: RefCell<Option<String>> = const { RefCell::new(None) };
 }
 
 /// Number of bytes consumed so far from the shell's standard input.
@@ -152,7 +154,7 @@ fn run_feed(script: &[u8], data: &[u8], feed: &Feed) -> Outcome {
     let feed = feed.clone();
     let script = script.to_vec();
     let data = data.to_vec();
-    let (o, _) = run_with(
+    let (o, fin) = run_with(
         cfg,
         move |env, state| {
             STATE.with(|s| *s.borrow_mut() = Some(Rc::clone(state)));
@@ -238,10 +240,37 @@ fn run_feed(script: &[u8], data: &[u8], feed: &Feed) -> Outcome {
                 }
             }
         },
-        |_, _| (),
+        |env, _| final_state(env),
     );
     STATE.with(|s| *s.borrow_mut() = None);
+    FINAL.with(|f| *f.borrow_mut() = fin);
     o
+}
+
+/// The state the script leaves behind, beyond what its probes printed: the variables the scripts
+/// assign with `read`, the alias table entries the scripts define, the two options they toggle.
+/// `<v1>,<v2>,<v3>,<vd>;<a1>,<a2>,<a3>,<n1>,<n2>,<n3>;<verbose><portable>` (hex values; `-` empty or
+/// unset variable; `~` no such alias).
+fn final_state(env: &mut VEnv) -> String {
+    use yash_env::option::{Option as ShellOption, State};
+    use yash_env::variable::Value;
+    let vars: Vec<String> = ["v1", "v2", "v3", "vd"]
+        .iter()
+        .map(|n| match env.variables.get(*n).and_then(|v| v.value.clone()) {
+            Some(Value::Scalar(s)) => enc_str(&s),
+            Some(Value::Array(a)) => format!("[{}]", a.iter().map(|x| enc_str(x)).collect::<Vec<_>>().join("+")),
+            None => "-".to_string(),
+        })
+        .collect();
+    let aliases: Vec<String> = ["a1", "a2", "a3", "n1", "n2", "n3"]
+        .iter()
+        .map(|n| match env.aliases.iter().find(|e| e.0.name == *n) {
+            Some(e) => enc_str(&e.0.replacement),
+            None => "~".to_string(),
+        })
+        .collect();
+    let on = |o: ShellOption| (env.options.get(o) == State::On) as u8;
+    format!("{};{};{}{}", vars.join(","), aliases.join(","), on(ShellOption::Verbose), on(ShellOption::Portable))
 }
 
 /// built-ins named like the aliases the scripts define: `a1` behaves as `probe @a1`
@@ -482,6 +511,8 @@ struct Obs {
     err: bool,
     echo: Vec<u8>,
     stuck: bool,
+    /// the state left behind (`final_state`); `None` for runs that do not go through `run_feed`
+    fin: Option<String>,
 }
 
 fn is_probe_line(l: &str) -> bool {
@@ -496,7 +527,9 @@ fn is_probe_line(l: &str) -> bool {
 }
 
 fn observe(script: &[u8], data: &[u8], feed: &Feed) -> Obs {
-    obs_of(run_feed(script, data, feed))
+    let mut o = obs_of(run_feed(script, data, feed));
+    o.fin = FINAL.with(|f| f.borrow_mut().take());
+    o
 }
 
 // ---------------------------------------------------------------------------------------------
@@ -672,7 +705,7 @@ fn obs_of(o: Outcome) -> Obs {
             pos += 1;
         }
     }
-    Obs { items, status: o.exit_status, err, echo, stuck: o.stuck }
+    Obs { items, status: o.exit_status, err, echo, stuck: o.stuck, fin: None }
 }
 
 fn show(o: &Obs) -> String {
@@ -680,11 +713,12 @@ fn show(o: &Obs) -> String {
         return "TIMEOUT".into();
     }
     format!(
-        "trace={} status={} err={} echo={}",
+        "trace={} status={} err={} echo={} fin={}",
         o.items.join("|"),
         o.status,
         o.err as u8,
-        enc_bytes(&o.echo)
+        enc_bytes(&o.echo),
+        o.fin.as_deref().unwrap_or("-")
     )
 }
 
@@ -727,6 +761,79 @@ fn offset_of(item: &str) -> Option<usize> {
 
 fn is_prefix<T: PartialEq>(a: &[T], b: &[T]) -> bool {
     a.len() <= b.len() && a == &b[..a.len()]
+}
+
+/// The logical line of `read` stated on the bytes alone (POSIX: an unescaped backslash preserves the
+/// next character, backslash-newline is a line continuation; none of this with `-r`): the shortest
+/// prefix that ends with a newline preceded by an **even** number of backslashes.  Length of that
+/// prefix, newline included.
+fn logical_len(input: &[u8], raw: bool) -> Option<usize> {
+    for i in 0..input.len() {
+        if input[i] == b'\n' {
+            let k = input[..i].iter().rev().take_while(|&&b| b == b'\\').count();
+            if raw || k % 2 == 0 {
+                return Some(i + 1);
+            }
+        }
+    }
+    None
+}
+
+/// The value `read v` assigns for the logical line `line` (final newline not included): continuations
+/// removed, every other backslash dropped with the character after it kept literally, IFS white space
+/// that is not backslash-quoted trimmed at both ends.
+fn read_value(line: &[u8], raw: bool) -> String {
+    let text = String::from_utf8_lossy(line).into_owned();
+    let mut cs: Vec<(char, bool)> = vec![];
+    let mut it = text.chars();
+    while let Some(c) = it.next() {
+        if c == '\\' && !raw {
+            match it.next() {
+                Some('\n') | None => {}
+                Some(n) => cs.push((n, true)),
+            }
+        } else {
+            cs.push((c, false));
+        }
+    }
+    let ws = |p: &(char, bool)| !p.1 && (p.0 == ' ' || p.0 == '\t' || p.0 == '\n');
+    while cs.last().map(ws).unwrap_or(false) {
+        cs.pop();
+    }
+    let start = cs.iter().position(|p| !ws(p)).unwrap_or(cs.len());
+    cs[start..].iter().map(|p| p.0).collect()
+}
+
+/// `read NAME` / `read -r NAME`: (raw, NAME)
+fn plain_read(line: &[u8]) -> Option<(bool, String)> {
+    let t = std::str::from_utf8(line).ok()?;
+    let t = t.strip_prefix("read ")?;
+    let (raw, name) = match t.strip_prefix("-r ") {
+        Some(n) => (true, n),
+        None => (false, t),
+    };
+    if name.is_empty() || !name.bytes().all(|b| b.is_ascii_lowercase() || b.is_ascii_digit()) {
+        return None;
+    }
+    Some((raw, name.to_string()))
+}
+
+/// the fields of the probe lines of the trace whose first field is `marker`
+fn probe_fields<'a>(obs: &'a Obs, marker: &str) -> Vec<Vec<&'a str>> {
+    let m = enc_str(marker);
+    let mut out = vec![];
+    for it in &obs.items {
+        let it = it.strip_suffix("!nb").unwrap_or(it);
+        if !is_probe_line(it) {
+            continue;
+        }
+        let fields = it.split_once(':').unwrap().1.rsplit_once('@').unwrap().0;
+        let fs: Vec<&str> = fields.split(',').collect();
+        if fs.first() == Some(&m.as_str()) {
+            out.push(fs);
+        }
+    }
+    out
 }
 
 /// The property evaluated on the real code for one case.
@@ -794,6 +901,30 @@ fn oracle(c: &Case, script: &[u8], obs: &Obs) -> String {
             }
         }
         Feed::File | Feed::Real(_) => {}
+    }
+    // (8) standard input separate from the script (`sh -c`, `sh file`): `read [-r] v1`, then
+    // `read -r v2`, then `probe BD "$v1" "$v2"`: the first `read` took exactly the first logical line
+    // of the data, so the second one gets the physical line that follows it
+    if matches!(c.feed, Feed::Str | Feed::Script) && c.units.len() >= 3 {
+        let first = c.units[0].strip_suffix(b"\n").and_then(plain_read);
+        if let Some((raw, v1)) = first {
+            if v1 == "v1"
+                && c.units[1] == b"read -r v2\n"
+                && c.units[2].starts_with(b"probe BD \"$v1\" \"$v2\"")
+                && std::str::from_utf8(&c.data).is_ok()
+            {
+                let n = logical_len(&c.data, raw).unwrap_or(c.data.len());
+                let line1 = c.data[..n].strip_suffix(b"\n").unwrap_or(&c.data[..n]);
+                let rest = &c.data[n..];
+                let m = logical_len(rest, true).unwrap_or(rest.len());
+                let line2 = rest[..m].strip_suffix(b"\n").unwrap_or(&rest[..m]);
+                let want = vec![enc_str("BD"), enc_str(&read_value(line1, raw)), enc_str(&read_value(line2, true))];
+                let got = probe_fields(obs, "BD");
+                if got.len() != 1 || got[0] != want.iter().map(|x| x.as_str()).collect::<Vec<_>>() {
+                    return format!("FAIL:read-took-more-or-less-than-its-logical-line want={}", want.join(","));
+                }
+            }
+        }
     }
     // a reported error (other than a command that was not found) is a syntax error: status 2
     if obs.err && obs.status != 2 {
@@ -865,6 +996,40 @@ fn oracle(c: &Case, script: &[u8], obs: &Obs) -> String {
                 }
             }
         }
+        // (7) `read [-r] v` / the lines of one logical line / `probe B<k> "$v"` at the top level of a
+        // unit, all unit prefixes up to and including this unit being complete scripts: the command
+        // line that follows the logical line was still there to be executed (what follows the
+        // current command remains available), and the variable holds that logical line
+        for (j, unit) in c.units.iter().enumerate() {
+            if !complete[j] || std::str::from_utf8(unit).is_err() {
+                continue;
+            }
+            let after_ok = if j + 1 < c.units.len() { complete[j + 1] } else { !obs.err && unit.ends_with(b"\n") };
+            if !after_ok {
+                continue;
+            }
+            let Some(nl) = unit.iter().position(|&b| b == b'\n') else { continue };
+            let Some((raw, var)) = plain_read(&unit[..nl]) else { continue };
+            let body = &unit[nl + 1..];
+            let Some(n) = logical_len(body, raw) else { continue };
+            let next = &body[n..];
+            let next_line = &next[..next.iter().position(|&b| b == b'\n').unwrap_or(next.len())];
+            let Ok(next_text) = std::str::from_utf8(next_line) else { continue };
+            let Some(p) = next_text.strip_prefix("probe B") else { continue };
+            let Some((k, arg)) = p.split_once(' ') else { continue };
+            if arg != format!("\"${var}\"") || !k.bytes().all(|b| b.is_ascii_digit()) {
+                continue;
+            }
+            let marker = format!("B{k}");
+            let want = vec![enc_str(&marker), enc_str(&read_value(&body[..n - 1], raw))];
+            let got = probe_fields(obs, &marker);
+            if got.is_empty() {
+                return format!("FAIL:command-after-the-data-of-read-was-not-run {marker}");
+            }
+            if got.iter().any(|g| *g != want.iter().map(|x| x.as_str()).collect::<Vec<_>>()) {
+                return format!("FAIL:read-got-other-logical-line {marker} want={}", want[1]);
+            }
+        }
     }
     "ok".into()
 }
@@ -929,6 +1094,7 @@ struct Gen {
     rng: Rng,
     marker: u32,
     rmarker: u32,
+    bmarker: u32,
     here: u32,
     aliases: Vec<usize>,
     portable: bool,
@@ -1286,6 +1452,67 @@ impl Gen {
             _ => format!("read -d : {v} {w}\n{} \\: {}\\\n{}:probe {} \"${v}\" \"${w}\"", self.word(), self.word(), self.word(), self.m()),
         }
     }
+    /// the text of a data line (no newline): words, sometimes with backslashes in the middle
+    fn bs_text(&mut self) -> String {
+        let mut s = self.data_line();
+        match self.rng.below(6) {
+            0 => s.push_str("\\\\z"),
+            1 => s.push_str("\\ y"),
+            2 => s = format!("q\\\\\\\\{s}"),
+            _ => {}
+        }
+        s
+    }
+    /// one logical line for `read`: physical lines of which every one but the last ends in an odd
+    /// number (1, 3) of backslashes and the last in an even number (0, 2, 4); for `read -r` a single
+    /// line ending in 0..4 backslashes
+    fn bs_logical(&mut self, raw: bool) -> String {
+        let bs = |k: usize| "\\".repeat(k);
+        if raw {
+            let k = self.rng.below(5);
+            return format!("{}{}", self.bs_text(), bs(k));
+        }
+        let mut s = String::new();
+        let conts = *self.rng.pick(&[0, 0, 0, 1, 1, 2]);
+        for _ in 0..conts {
+            let k = *self.rng.pick(&[1, 1, 3]);
+            let t = if self.rng.chance(1, 5) { String::new() } else { self.bs_text() };
+            s.push_str(&format!("{t}{}\n", bs(k)));
+        }
+        let k = *self.rng.pick(&[0, 2, 2, 2, 4]);
+        let t = if self.rng.chance(1, 8) { String::new() } else { self.bs_text() };
+        s.push_str(&format!("{t}{}", bs(k)));
+        s
+    }
+    /// `read` (with and without `-r`) whose data lines end in 0..4 backslashes, in the placements of
+    /// `read_unit`; the line after the data is a command that must still be there
+    fn read_bs_unit(&mut self) -> String {
+        let v = self.var();
+        let raw = self.rng.chance(1, 3);
+        let r = if raw { "-r " } else { "" };
+        let d = self.bs_logical(raw);
+        match self.rng.below(10) {
+            0..=3 => {
+                self.bmarker += 1;
+                format!("read {r}{v}\n{d}\nprobe B{} \"${v}\"", self.bmarker)
+            }
+            4 => format!("read {r}{v}; probe {} \"${v}\"\n{d}\nprobe {}", self.m(), self.m()),
+            5 => {
+                let w = self.var();
+                let raw2 = self.rng.chance(1, 2);
+                let r2 = if raw2 { "-r " } else { "" };
+                let d2 = self.bs_logical(raw2);
+                format!("{{ read {r}{v}; read {r2}{w}; }}\n{d}\n{d2}\nprobe {} \"${v}\" \"${w}\"", self.m())
+            }
+            6 => format!("if st 0; then\nread {r}{v}\nprobe {}\nfi\n{d}\nprobe {} \"${v}\"", self.m(), self.m()),
+            7 => format!("(read {r}{v}; probe {} \"${v}\")\n{d}\nprobe {}", self.m(), self.m()),
+            8 => format!("eval 'read {r}{v}'\n{d}\nprobe {} \"${v}\"", self.m()),
+            _ => {
+                let w = self.var();
+                format!("read {r}{v} {w}\n{d}\nprobe {} \"${v}\" \"${w}\"", self.m())
+            }
+        }
+    }
     /// aliases replaced by nothing (empty, blank-only, comment-only value) as the last word of a line
     /// after `;`, `&&`, `||`, alone, or inside a compound list — and a next line that depends on the
     /// first one having run (data for `read`, an alias just defined, a syntax error)
@@ -1376,7 +1603,14 @@ impl Gen {
             rest.push_str(&format!("\n{}", self.data_line()));
         }
         let v = self.var();
-        match self.rng.below(4) {
+        match self.rng.below(5) {
+            4 => {
+                let mut rest = String::new();
+                for _ in 0..1 + self.rng.below(3) {
+                    rest.push_str(&format!("\n{}", self.bs_logical(false)));
+                }
+                format!("while read {v}; do probe {} \"${v}\"; done{rest}", self.m())
+            }
             0 => format!("while read {v}; do probe {} ${v}; done{rest}", self.m()),
             1 => format!("while read -r {v}\ndo\nprobe {} \"${v}\"\ndone{rest}\nprobe tail", self.m()),
             2 => format!("cat{rest}\nprobe {} swallowed", self.m()),
@@ -1435,7 +1669,8 @@ impl Gen {
         pool[self.rng.below(pool.len())].clone()
     }
     fn unit(&mut self) -> String {
-        match self.rng.below(20) {
+        match self.rng.below(22) {
+            20 | 21 => self.read_bs_unit(),
             0..=3 => self.line(),
             4..=7 => self.read_unit(),
             8 | 9 => self.alias_unit(),
@@ -1669,7 +1904,12 @@ fn main() {
     // thin branches fed with a boundary at every byte position: here-documents split across reads,
     // line continuation at a chunk boundary, an alias whose replacement consumes the next line, end of
     // input inside a quote, NUL and invalid UTF-8 bytes in data and in script text
-    let edge_scripts: [&[&str]; 11] = [
+    let edge_scripts: [&[&str]; 14] = [
+        // a backslash followed by the end of the input stays in the line as a lone quoting character:
+        // not IFS white space, so the last variable keeps the blank before it (seen in `fin=`)
+        &["read v1 v2\nx y \\"],
+        &["read v1\n \\"],
+        &["read v1 v2 v3\na  b\\ c \\\\ d \\"],
         &["cat <<E1; cat <<E2\nh1 é\nE1\nE2x\nE2\n", "probe m1\n"],
         &["probe m1 a\\\nb \"c\\\nd\"\n", "read v1\nx\\\ny\n", "probe m2 $v1\n"],
         &["alias a1='probe m1 &&'\n", "a1\nprobe m2\n", "alias a2='if st 0; then'\n", "a2\nprobe m3\nfi\n"],
@@ -1696,6 +1936,55 @@ fn main() {
             }
         }
     }
+    // data lines of `read` ending in 0..4 backslashes, with and without `-r`, under every feed kind and
+    // with a chunk boundary at every byte position; continuation chains; several readers on one
+    // descriptor; a `while read` loop
+    let mut bs_scripts: Vec<Vec<String>> = vec![];
+    for k in 0..=4usize {
+        for r in ["", "-r "] {
+            bs_scripts.push(vec![
+                format!("read {r}v1\nab{}\nprobe B1 \"$v1\"\n", "\\".repeat(k)),
+                "probe m2\n".to_string(),
+            ]);
+        }
+    }
+    bs_scripts.push(vec![
+        "read v1\na\\\nb é\\\\\\\nc\\\\\nprobe B1 \"$v1\"\n".to_string(),
+        "probe m2 $?\n".to_string(),
+    ]);
+    bs_scripts.push(vec![
+        "{ read v1; read -r v2; read v3; }\nx\\\\\ny\\\\\n\\\\\nprobe m1 \"$v1\" \"$v2\" \"$v3\"\n".to_string(),
+        "a1\n".to_string(),
+    ]);
+    bs_scripts.push(vec![
+        "while read v1; do probe m1 \"$v1\"; done\na\\\\\nb\\\nc\nd\\\\\\\\\n€\\\\".to_string(),
+    ]);
+    for units in &bs_scripts {
+        let us: Vec<Vec<u8>> = units.iter().map(|u| raw_bytes(u)).collect();
+        let len: usize = us.iter().map(|u| u.len()).sum();
+        for feed in ["file", "str", "script", "pipe:1:1", "nbpipe:1:3,5"] {
+            emit_case(case_text(feed, &data, &us));
+        }
+        emit_case(case_text(&format!("pipe:0:{len}"), &data, &us));
+        for i in 1..len {
+            emit_case(case_text(&format!("pipe:1:{i},{}", len - i), &data, &us));
+        }
+    }
+    // the same patterns on a standard input that is not the script (`sh -c`, `sh file`): the next
+    // `read` must get the line after the first logical line
+    for k in 0..=4usize {
+        for r in ["", "-r "] {
+            let d = format!("p q{}\nsecond\\\\\nthird\n", "\\".repeat(k));
+            let us: Vec<Vec<u8>> = vec![
+                format!("read {r}v1\n").into_bytes(),
+                b"read -r v2\n".to_vec(),
+                b"probe BD \"$v1\" \"$v2\"\n".to_vec(),
+                b"read v3; probe m3 \"$v3\" $?\n".to_vec(),
+            ];
+            emit_case(case_text("str", d.as_bytes(), &us));
+            emit_case(case_text("script", d.as_bytes(), &us));
+        }
+    }
     // the real binary with an external `cat` reading the shared standard input, the script arriving in
     // chunks with a gap, the pipe inherited blocking and non-blocking
     let real_scripts: [&[&str]; 5] = [
@@ -1718,6 +2007,7 @@ fn main() {
             rng: Rng::new(s),
             marker: 0,
             rmarker: 0,
+            bmarker: 0,
             here: 0,
             aliases: vec![],
             portable: false,
